@@ -29,6 +29,7 @@ from __future__ import annotations
 import copy
 import itertools
 import json
+import math
 import os
 import shutil
 
@@ -598,6 +599,10 @@ def execute(history, cache_cfg, caches_on, scratch, extra_off=None, env=None):
             elif kind == "EDGE_W":
                 e = st["store"].get_graph(SURF).edges["e1"]
                 st["store"].upsert_edges(SURF, [Edge(id="e1", src=e.src, dst=e.dst, weight=(0.0 if e.weight > 0.01 else 0.8), rel=e.rel)])
+            elif kind == "EDGE_WSET":
+                # the same edit as EDGE_W with an explicit new weight (finest-edit leg: the two weights are neighbours)
+                e = st["store"].get_graph(SURF).edges["e1"]
+                st["store"].upsert_edges(SURF, [Edge(id="e1", src=e.src, dst=e.dst, weight=float(op[1]), rel=e.rel)])
             elif kind == "EDGE_DST":
                 e = st["store"].get_graph(SURF).edges["e2"]
                 st["store"].upsert_edges(SURF, [Edge(id="e2", src="n1", dst=("n3" if e.dst != "n3" or e.src != "n1" else "n2"), weight=1.0, rel="supports")])
@@ -896,6 +901,87 @@ def sweep_groups(thorough):
     return groups
 
 
+# ---- finest-edit leg ---------------------------------------------------------------------------------------------------
+# The coarse edit EDGE_W moves the weight of e1 between FINE_LO and FINE_HI.  The statement quantifies over every edge upsert,
+# also one that moves the weight by the smallest representable amount; such an edit matters to the result exactly where the
+# fresh computation has a discontinuity in the weight (a budget / epsilon / cap threshold, a rounding step of a reported
+# value).  The leg locates those places deterministically by bisection on the caches-off engine between the two coarse
+# weights - once on the full T1 observation, once on its structure (floats blanked: which nodes, which counters) - down to
+# two ADJACENT floats (w-, w+) with different fresh results, and then runs [set w-, turn, set w+, turn] and the reverse
+# through the twin oracle, also with the pair widened by FINE_WIDEN on both sides (edit sizes from 1 ulp to 1e-3).
+FINE_LO, FINE_HI = 0.0, 0.8
+FINE_WIDEN = (0.0, 1e-13, 1e-10, 1e-8, 1e-6, 1e-4, 1e-3)
+FINE_CACHE_CONFIGS = ("lru_ttl", "bytes")
+
+
+def _blank_floats(x):
+    if isinstance(x, float):
+        return None
+    if isinstance(x, dict):
+        return {k: _blank_floats(v) for k, v in x.items()}
+    if isinstance(x, (list, tuple)):
+        return [_blank_floats(v) for v in x]
+    return x
+
+
+def _fine_bisect(pre, turn_op, view, scratch, st):
+    """adjacent floats (lo, hi) in [FINE_LO, FINE_HI] with view(fresh T1 result) different, or None"""
+    def f(w):
+        st.add("fine_bisection_runs")
+        o = execute(pre + [["EDGE_WSET", w], turn_op], "lru_ttl", False, scratch)[-1]
+        return W.jd(view(o["t1"]))
+    lo, hi = FINE_LO, FINE_HI
+    flo = f(lo)
+    if f(hi) == flo:
+        return None
+    while math.nextafter(lo, hi) < hi:
+        mid = lo + (hi - lo) / 2.0
+        if not (lo < mid < hi):
+            mid = math.nextafter(lo, hi)
+        if f(mid) == flo:
+            lo = mid
+        else:
+            hi = mid
+    return lo, hi
+
+
+def _fine_worker(chunk, st: Stats, scratch):
+    import logging
+    logging.disable(logging.CRITICAL)
+    for pre, turn_op, widen in chunk:
+        pre = [list(o) for o in pre]
+        turn_op = list(turn_op)
+        pairs = []
+        for name, view in (("value", lambda x: x), ("structure", _blank_floats)):
+            p_ = _fine_bisect(pre, turn_op, view, scratch, st)
+            if p_ is None:
+                st.add("fine_no_discontinuity_%s" % name)
+                continue
+            st.add("fine_discontinuities_%s" % name)
+            if p_ not in pairs:
+                pairs.append(p_)
+        for lo, hi in pairs:
+            for d in widen:
+                a, b = max(lo - d, 0.0), hi + d
+                for x, y in ((a, b), (b, a)):
+                    h = pre + [["EDGE_WSET", x], turn_op, ["EDGE_WSET", y], turn_op]
+                    for cc in FINE_CACHE_CONFIGS:
+                        off = _judge(h, cc, st, scratch)
+                        if _stage_obs(off[-1]) != _stage_obs(off[-2]):
+                            st.add("fine_edits_biting")
+                        st.add("fine_histories")
+    if chunk:
+        c = chunk[0]
+        st.sample({"cache_cfg": "lru_ttl", "history": [list(o) for o in c[0]] + [["EDGE_WSET", FINE_LO], list(c[1]), ["EDGE_WSET", FINE_HI], list(c[1])]})
+
+
+def fine_items(thorough):
+    pres = [[], [["SWITCH"]]]
+    turns = [["T", a, x] for a in (("A", "B") if thorough else ("A",)) for x in ("apple", "pear fig")]
+    widen = FINE_WIDEN if thorough else FINE_WIDEN[:1] + FINE_WIDEN[2::2]
+    return [(pre, t, widen) for pre in pres for t in turns]
+
+
 def histories(depth, extra_first=()):
     """all histories of <= depth ops ending in a turn with an earlier turn; plus depth+1 histories whose first op is in extra_first"""
     out = []
@@ -949,6 +1035,19 @@ def run(run: Run) -> None:
                     "the %d mode-selecting entries with P addressing the same stage, the edits E also under the %d relation-multiplier tables (LRU+TTL caches, text 'pear fig')"
                     % (len(SWEEP_MODES), len(SWEEP_EDIT_MODES))))
     run.pmap(_sweep_worker, groups, extra=(run.scratch,), chunks=len(groups))
+    # third leg: finest edits (see FINE_*)
+    fitems = fine_items(run.thorough)
+    run.notes["fine_items"] = len(fitems)
+    run.rule += ("; plus the finest-edit leg: for each of %d (state, turn) combinations the weight of edge e1 is bisected on the caches-off "
+                 "engine between the two weights of the coarse re-weighting (%r, %r) down to two ADJACENT floats whose fresh T1 results differ "
+                 "(once comparing the whole result, once its structure with floats blanked), and the histories [set w-, turn, set w+, turn] and "
+                 "the reverse - also with the pair widened by %s on both sides - go through the same twin oracle under the LRU+TTL and the "
+                 "byte-bounded stage caches (with the turn-level manager on)" % (len(fitems), FINE_LO, FINE_HI, list(fitems[0][2])))
+    run.pmap(_fine_worker, fitems, extra=(run.scratch,), chunks=len(fitems))
+    run.assume("finest-edit leg: the weight edits are direct upserts of edge e1 of the surface graph (the apply-carried form of a re-weighting is "
+               "in the history alphabet with coarse weights only); where the bisection finds no weight between the coarse ones at which the fresh "
+               "result changes (n_fine_no_discontinuity_*) that combination contributes nothing; n_fine_edits_biting counts the histories whose two "
+               "caches-off turns differ")
     run.assume("configuration sweep: examines the two stage caches; the turn-level manager is switched off in both twin runs of that leg, because "
                "its blindness to configuration changes while the state version does not move is the listed known finding and is not re-derived per parameter")
     run.assume("not judged: the reporting fields that exist only under perf.enabled + perf.metrics.report_memory (T2 metrics t2.* / t2q.*, T1 counters "
